@@ -580,6 +580,10 @@ pub trait Object {
                     },
                 }
             }
+            // A step that does not exist means the path does not exist, never fall back to the root
+            if v.is_none() {
+                return None;
+            }
         }
         v
     }
@@ -629,6 +633,10 @@ pub trait Object: Send + Sync {
                         None => return None,
                     },
                 }
+            }
+            // A step that does not exist means the path does not exist, never fall back to the root
+            if v.is_none() {
+                return None;
             }
         }
         v
